@@ -28,9 +28,9 @@ ASSUMPTIONS = [
     "message texts are the defaults of settings.errors and the documented bad_type template",
     "the content of a union rejection, of a wrong-length fixed tuple and of a mapping item whose key and value are both invalid is UNSPECIFIED (only clauses b and c are checked there)",
 ]
-BUDGET = {"quick": 1000, "thorough": 16000}
+BUDGET = {"quick": 1600, "thorough": 16000}
 SHARDS = {"quick": 8, "thorough": 16}
-MIN_NONTRIVIAL = {"quick": 1500, "thorough": 30000}
+MIN_NONTRIVIAL = {"quick": 1200, "thorough": 15000}
 TECHNIQUE = "property-based testing (Hypothesis): data with k>=2 planted sibling violations vs the reference model's complete error list + loc/order invariants"
 LEVEL_TEXT = ("Exploration: ~50k (quick) / ~1.5M (thorough) cases; exact comparison of the reported error list with an independent model "
               "wherever the documentation fixes it, structural invariants (real paths, no duplicates, deterministic canonical order) everywhere.")
